@@ -182,9 +182,19 @@ func sweepHook(prop string, keep func(o *Obligation) bool) propHook {
 				ctr = &cp
 			}
 			opts := &genOptions{safety: true}
+			var ifaceCtrs []*Contract
+			if fn.Signature.Recv() != nil && fn.Pkg != nil {
+				for key, ic := range c.e.ctrs {
+					if strings.Contains(key, ".*.") && strings.HasSuffix(key, ".*."+fn.Name()) {
+						ifaceCtrs = append(ifaceCtrs, ic)
+					}
+				}
+				sort.Slice(ifaceCtrs, func(i, j int) bool { return ifaceCtrs[i].Key < ifaceCtrs[j].Key })
+			}
 			g := c.e.verifyWith(fn, ctr, opts, func(g *gen) {
 				g.astValid = true
 				g.nilArgs = true
+				g.ifaceCtrs = ifaceCtrs
 				if explicit && ctr.NoSafety {
 					g.options.safety = true // the sweep is where the safety obligations of nosafety functions are generated
 				}
@@ -193,6 +203,12 @@ func sweepHook(prop string, keep func(o *Obligation) bool) propHook {
 				switch o.Kind {
 				case "nil", "index", "slice", "typeassert", "div", "panic", "makeslice", "nilarg":
 					return keep == nil || keep(o)
+				case "post":
+					return strings.HasPrefix(o.Label, "implements ")
+				}
+				if strings.HasPrefix(o.Kind, "call/") && strings.Contains(o.Kind, "/pre") {
+					// preconditions of assumed contracts of dependencies (e.g. ast.Inspect needs a non-nil node)
+					return true
 				}
 				return false
 			})
